@@ -69,6 +69,9 @@ structure S (F : Type) where
   mirror : Mirror := {}
   /-- ghost: the transport has reported an error to the reader or to the writer task -/
   faulted : Bool := false
+  /-- ghost: sends through remote references that were accepted (`Ok`) / refused (`Err`), by pid -/
+  accepted : List Nat := []
+  refused : List Nat := []
 
 inductive Ev (F : Type) where
   /-- the `Session` handles `Send(f)` -/
@@ -84,6 +87,14 @@ inductive Ev (F : Type) where
   | nodeNotices
   /-- the `NodeSession` handles a control message of the peer that got through before -/
   | ctl (c : Ctl)
+  /-- somebody stops the remote REFERENCE `pid` itself (`ActorCell::stop` on a pg member, not the
+  original): the `NodeSession` handles `ActorTerminated(proxy)`: `remote_actors.remove(pid)`, then
+  `actor.stop_and_wait(..).await?` on the already dead proxy fails, the handler returns the error
+  and the `NodeSession` itself FAILS — all its children (the tcp session, every other proxy) go
+  down with it -/
+  | proxyStopped (pid : Nat)
+  /-- a local sender casts / calls through the remote reference `pid` -/
+  | sendVia (pid : Nat)
 
 def isClose : Ctl → Bool
   | .close => true
@@ -115,6 +126,15 @@ def step {F : Type} (s : S F) : Ev F → S F
     if s.nodeNote && s.nodeUp then { s with nodeUp := false, mirror := s.mirror.step .close } else s
   | .ctl c =>
     if s.nodeUp && !isClose c then { s with mirror := s.mirror.step c } else s
+  | .proxyStopped pid =>
+    if s.nodeUp && s.mirror.proxies.contains pid then
+      { s with nodeUp := false, mirror := s.mirror.step .close, sessUp := false, writerUp := false,
+               readerUp := false }
+    else s
+  | .sendVia pid =>
+    -- `ActorCell::send_serialized` on the proxy: `Ok` iff the proxy actor runs
+    if s.mirror.proxies.contains pid then { s with accepted := s.accepted ++ [pid] }
+    else { s with refused := s.refused ++ [pid] }
 
 def run {F : Type} (s : S F) (evs : List (Ev F)) : S F := evs.foldl step s
 
